@@ -450,6 +450,50 @@ def renderYAML (d : Doc) : Option Bytes :=
     some (Bytes.ofString "time_zone: " ++ d.tz ++ Bytes.ofString "\n" ++ days)
   else none
 
+/-! ### Request path on a long-lived filter with configuration updates
+
+`filtering/blocked.go`: `handleBlockedServicesUpdate` replaces
+`d.conf.BlockedServices`, `handleBlockedServicesSet` replaces its `IDs`;
+`ApplyBlockedServices` / `ApplyAdditionalFiltering` read the configuration and
+the clock on every request.  Nothing else is remembered between requests. -/
+
+/-- A blocked-services configuration: the pause schedule and how many service
+IDs the list holds. -/
+structure SvcConf where
+  sched : Weekly
+  nIDs : Nat
+deriving DecidableEq, Repr
+
+/-- What the filter holds between requests. -/
+structure ReqState where
+  global : SvcConf
+  client : Option SvcConf      -- the requesting client's own blocked services, if any
+deriving DecidableEq, Repr
+
+inductive ReqOp
+  | update (g : SvcConf)            -- PUT /control/blocked_services/update
+  | setIDs (n : Nat)                -- POST /control/blocked_services/set (deprecated)
+  | client (c : Option SvcConf)     -- the client's settings are changed
+
+def ReqState.init : ReqState := ⟨⟨emptyWeekly, 0⟩, none⟩
+
+def ReqState.step (s : ReqState) : ReqOp → ReqState
+  | .update g => { s with global := g }
+  | .setIDs n => { s with global := { s.global with nIDs := n } }
+  | .client c => { s with client := c }
+
+/-- One request at instant `now`: how many of the global and of the client's
+service IDs end up in `setts.ServicesRules`.  `clientSite = false`:
+`ApplyBlockedServices`; `true`: `ApplyAdditionalFiltering`. -/
+def requestApplied (offG offC : Int → Int) (s : ReqState) (clientSite : Bool) (now : Instant) : Nat × Nat :=
+  -- ApplyBlockedServices: setts.ServicesRules = []; if !Schedule.Contains(now) { append IDs }
+  let g := if !contains offG s.global.sched now then s.global.nIDs else 0
+  if !clientSite then (g, 0)
+  else match s.client with
+    | none => (g, 0)                                     -- setts.BlockedServices == nil
+    | some c =>                                          -- setts.ServicesRules = nil
+      (0, if !contains offC c.sched now then c.nIDs else 0)
+
 /-! ### What one decode case shows (driver output, spec monitor input) -/
 
 /-- Observation of one `Unmarshal…` call followed (on success) by
